@@ -99,6 +99,14 @@ fn main() {
         }
         return;
     }
+    if inp.contains("\"long_list_check\"") {
+        let (n, r) = standins::check_long_lists();
+        match r {
+            Some(d) => println!("{{\"outcome\": \"violation\", \"detail\": \"{}\", \"tried\": {}}}", esc(&d), n),
+            None => println!("{{\"outcome\": \"ok\", \"detail\": \"{} ClientHello / extension blocks with lists of 0..32767 elements decode element for element\", \"tried\": {}}}", n, n),
+        }
+        return;
+    }
     if inp.contains("\"multi_record_check\"") {
         let (n, r) = standins::check_multi_record();
         match r {
